@@ -562,6 +562,36 @@ theorem C07_put_then_get (cfg : KSConfig) (hash tok : Str) (size : Nat) (nowNs :
     rw [this]
   · rfl
 
+/-- The remote-proxy exit (`+R` without `+A`). Its outcomes are: 401 without a token; 400/500
+decided locally; or one forwarded request to a *configured* remote cluster. None of them is a
+local volume read (`GetOutcome.readVolume` is a different constructor of `handleGET`'s result, and
+`Tie.C07.tie_remoteGetSkeleton` records that `remoteProxy.Get` contains no GetBlock call), so with
+blob signing on the only way to local block data is `C07_get_requires_signature`. -/
+theorem C07_remote_exit (configured : Str → Bool) (loc tok : Str) :
+    (tok = [] → remoteProxyGet mac configured loc tok = .status 401) ∧
+    (∀ c, remoteProxyGet mac configured loc tok = .status c → c = 401 ∨ c = 400 ∨ c = 500) ∧
+    (∀ r l t, remoteProxyGet mac configured loc tok = .forward r l t → configured r = true ∧ tok ≠ []) := by
+  unfold remoteProxyGet
+  cases tok with
+  | nil => simp
+  | cons a as =>
+    simp only [List.isEmpty_cons, Bool.false_eq_true, if_false, reduceCtorEq, false_implies, true_and]
+    cases hs : splitOn '+' loc with
+    | nil => simp
+    | cons h parts =>
+      obtain ⟨h1, h2⟩ := remoteParts_outcome mac configured (a :: as) parts [h] none (by simp)
+      constructor
+      · intro c hc
+        rcases h1 c hc with h | h
+        · exact Or.inr (Or.inl h)
+        · exact Or.inr (Or.inr h)
+      · intro r l t hf
+        exact ⟨h2 r l t hf, by simp⟩
+
+example : remoteProxyGet (fun _ _ => []) (fun r => r == "zremo".toList)
+    "0123456789abcdef0123456789abcdef+3+Rzremo-abc@def+Kx".toList "v2/u/s".toList =
+    .forward "zremo".toList "0123456789abcdef0123456789abcdef+3+Aabc@def+Kx".toList "v2/u/".toList := by decide
+
 /-! ### Go and the API server outside the common range -/
 
 /-- For every expiry (also before 2²⁸) Go's signed locator is the API server's algorithm applied
